@@ -112,3 +112,110 @@ Theorem scan_pubrec_accepted es s : run step init es = Some s ->
   scan_pubrec XInit es = Some (pexp_of (k_ppc (k s))).
 Proof. intros H. exact (scan_pubrec_gen es [] init s eq_refl H). Qed.
 
+
+(* ---- scan_noack *)
+
+Lemma cbfail_step s e s' : step s e = Some s' ->
+  g_cbfail (g s') = match e with
+                    | ENew _ => false
+                    | ECb _ Fail => true
+                    | _ => g_cbfail (g s)
+                    end.
+Proof.
+  intros H.
+  destruct e.
+  all: step_leaves H.
+  all: simp_proj; clean_eqs.
+  all: try reflexivity.
+Qed.
+
+Lemma scan_noack_gen es : forall pre s0 s,
+  run step init pre = Some s0 -> run step s0 es = Some s ->
+  scan_noack (g_cbfail (g s0)) es = true.
+Proof.
+  induction es as [|e es IH]; intros pre s0 s Hpre Hrun; [reflexivity|].
+  cbn [run] in Hrun. destruct (step s0 e) as [s1|] eqn:Hs; [|discriminate Hrun].
+  assert (Hpre' : run step init (pre ++ [e]) = Some s1).
+  { rewrite run_app, Hpre. cbn [run]. rewrite Hs. reflexivity. }
+  pose proof (IH _ _ _ Hpre' Hrun) as Hrec. rewrite (cbfail_step _ _ _ Hs) in Hrec.
+  destruct e; cbn [scan_noack]; try exact Hrec.
+  - (* ETx *)
+    destruct p; try exact Hrec.
+    all: apply andb_true_iff; split; [|exact Hrec].
+    all: destruct (g_cbfail (g s0)) eqn:Ef; [exfalso|reflexivity].
+    all: destruct (no_ack_on_error _ _ Hpre Ef) as [Hno _]; specialize (Hno _ _ _ _ Hs); discriminate Hno.
+  - (* ECb *)
+    destruct r; exact Hrec.
+Qed.
+
+Theorem scan_noack_accepted es s : run step init es = Some s -> scan_noack false es = true.
+Proof. intros H. exact (scan_noack_gen es [] init s eq_refl H). Qed.
+
+(* ---- scan_hs: the scanner's table IS the ghost table of open handshakes *)
+
+Definition cur_ok (cur : option N) (p : ppc) : Prop :=
+  match p with
+  | PRelCb _ _ id => cur = Some id
+  | PRelComp _ id => cur = None \/ cur = Some id
+  | _ => cur = None
+  end.
+
+Definition hs_rel (x : hscan) (s : st) : Prop :=
+  hs_tab x = g_hs (g s) /\ cur_ok (hs_cur x) (k_ppc (k s)).
+
+Lemma hs_sim s e s' x : InvCtl s -> InvOwed s -> hs_rel x s -> step s e = Some s' -> hs_rel (hs_step x e) s'.
+Proof.
+  intros (_ & _ & C3 & _) (_ & O2) [Ht Hc] H.
+  destruct x as [tab cur]. cbn [hs_tab hs_cur] in *. subst tab.
+  destruct e.
+  all: step_leaves H.
+  all: unfold hs_rel; simp_proj; clean_eqs.
+  all: repeat match goal with
+       | E : (?a =? ?b) = true |- _ => apply N.eqb_eq in E; subst
+       | E : packet_eqb _ _ = true |- _ => apply packet_eqb_eq in E; subst
+       | E : opt_packet_eqb _ _ = true |- _ => apply opt_packet_eqb_eq in E
+       end.
+  all: cbn [cur_ok hs_step hs_tab hs_cur get_id] in *.
+  all: try solve [split; first [reflexivity | assumption | (left; reflexivity) | (right; reflexivity)]].
+  all: try solve [match goal with E : get_id _ = Some _ |- _ => rewrite E end; cbn [hs_tab hs_cur]; split; reflexivity].
+  all: try solve [subst cur; cbn [hs_tab hs_cur]; split; first [reflexivity | (left; reflexivity)]].
+  all: try solve [specialize (O2 _ eq_refl); rewrite (C3 eq_refl) in Hc; cbn [cur_ok] in Hc;
+                  destruct after; cbn [after_pc] in O2; try contradiction;
+                  try (match goal with b : bool |- _ => destruct b end; try contradiction);
+                  split; [reflexivity|exact Hc]].
+  Show.
+Qed.
+
+Lemma scan_hs_gen es : forall pre s0 s x,
+  run step init pre = Some s0 -> run step s0 es = Some s -> hs_rel x s0 ->
+  hs_rel (fold_left hs_step es x) s.
+Proof.
+  induction es as [|e es IH]; intros pre s0 s x Hpre Hrun Hrel.
+  - cbn in Hrun. injection Hrun as <-. exact Hrel.
+  - cbn [run] in Hrun. destruct (step s0 e) as [s1|] eqn:Hs; [|discriminate Hrun].
+    assert (Hpre' : run step init (pre ++ [e]) = Some s1).
+    { rewrite run_app, Hpre. cbn [run]. rewrite Hs. reflexivity. }
+    destruct (InvG_reach _ _ Hpre) as (((((_ & HC & HO & _) & _) & _) & _) & _).
+    cbn [fold_left]. eapply IH; [exact Hpre'|exact Hrun|]. eapply hs_sim; eassumption.
+Qed.
+
+(* on an accepted trace the scanner's table equals the ghost table of the model: what
+   C10_exactly_once_partial says about the ghost table holds of the scanner's *)
+Theorem scan_hs_accepted es s : run step init es = Some s -> hs_tab (scan_hs es) = g_hs (g s).
+Proof.
+  intros H. refine (proj1 (scan_hs_gen es [] init s (HScan [] None) eq_refl H _)).
+  split; reflexivity.
+Qed.
+
+Corollary scan_hs_once es s : run step init es = Some s ->
+  g_compfail (g s) = false -> g_delfail (g s) = false -> hs_twice (scan_hs es) = None.
+Proof.
+  intros H F1 F2. unfold hs_twice. rewrite (scan_hs_accepted _ _ H).
+  destruct (exactly_once_partial _ _ H F1 F2) as [Hle _].
+  destruct (filter (fun y => 1 <? snd y) (g_hs (g s))) as [|[id n] l] eqn:E; [reflexivity|exfalso].
+  assert (Hin : In (id, n) (filter (fun y => 1 <? snd y) (g_hs (g s)))) by (rewrite E; left; reflexivity).
+  apply filter_In in Hin as [Hin Hn]. cbn in Hn. apply N.ltb_lt in Hn.
+  destruct (InvG_reach _ _ H) as ((((((_ & _ & W3 & _) & _) & _) & _) & _) & _).
+  apply (in_aget _ _ _ W3) in Hin. apply Hle in Hin. lia.
+Qed.
+
